@@ -10,6 +10,7 @@ import (
 	"context"
 	"fmt"
 	"io"
+	"mime"
 	"net/http"
 	"net/http/httptest"
 	"sort"
@@ -283,13 +284,19 @@ type bodyFault struct {
 	cutAt int // >= 0: the request body ends with io.ErrUnexpectedEOF at this byte offset
 }
 
+type armedCut struct {
+	at    int
+	clean bool
+}
+
 type simTransport struct {
 	r       *sim.Run
 	s       *sim.Sched
 	handler http.Handler
 	mu      sync.Mutex
 	// next upload request's body fault (consumed by the next POST)
-	nextCut int
+	cuts         map[string]armedCut // per client: body fault of its next POST
+	lastCutClass map[string]string   // per client
 	reqN    int
 	dead    bool
 	// census of the last POST body
@@ -299,16 +306,52 @@ type simTransport struct {
 }
 
 type simBody struct {
-	tr   *simTransport
-	rc   io.ReadCloser
-	off  int
-	cut  int
-	post bool
+	tr    *simTransport
+	rc    io.ReadCloser
+	off   int
+	cut   int
+	post  bool
+	clean bool   // the cut looks like a clean end of the body (io.EOF) instead of io.ErrUnexpectedEOF
+	seen  []byte // bytes delivered so far (to classify where a cut fell)
+	bound string
+	who   string
+}
+
+// cutClass says where in the multipart stream the body ended.
+func (b *simBody) cutClass() string {
+	d := []byte("--" + b.bound)
+	i := bytes.LastIndex(b.seen, d)
+	if i < 0 {
+		return "before-first-delimiter"
+	}
+	after := b.seen[i+len(d):]
+	switch {
+	case len(after) < 2:
+		return "at-delimiter"
+	case bytes.HasPrefix(after, []byte("--")):
+		return "after-final-delimiter"
+	case !bytes.Contains(after, []byte("\r\n\r\n")):
+		return "in-part-headers"
+	}
+	// a delimiter may be partially delivered at the very end
+	for k := len(d) + 1; k > 0; k-- {
+		if k <= len(b.seen) && bytes.HasSuffix(b.seen, append([]byte("\r\n"), d...)[:k]) && k > 2 {
+			return "in-delimiter"
+		}
+	}
+	return "in-part-body"
 }
 
 func (b *simBody) Read(p []byte) (int, error) {
 	sim.Yield("http:body-read")
 	if b.cut >= 0 && b.off >= b.cut {
+		if b.clean {
+			b.tr.r.Fault("request-body-ends-early-cleanly")
+			b.tr.mu.Lock()
+			b.tr.lastCutClass[b.who] = b.cutClass()
+			b.tr.mu.Unlock()
+			return 0, io.EOF
+		}
 		b.tr.r.Fault("request-body-cut")
 		return 0, io.ErrUnexpectedEOF
 	}
@@ -326,6 +369,9 @@ func (b *simBody) Read(p []byte) (int, error) {
 	}
 	n, err := b.rc.Read(p[:max])
 	b.off += n
+	if b.clean {
+		b.seen = append(b.seen, p[:n]...)
+	}
 	if b.post {
 		b.tr.mu.Lock()
 		b.tr.lastBodyBytes = b.off
@@ -340,11 +386,15 @@ func (tr *simTransport) RoundTrip(req *http.Request) (*http.Response, error) {
 	sim.Yield("http:roundtrip")
 	tr.mu.Lock()
 	tr.reqN++
-	cut := -1
+	cut, clean := -1, false
+	who := req.Header.Get("X-Verif-Client")
 	if req.Method == "POST" {
-		cut = tr.nextCut
-		tr.nextCut = -1
+		if ac, ok := tr.cuts[who]; ok {
+			cut, clean = ac.at, ac.clean
+			delete(tr.cuts, who)
+		}
 		tr.lastBodyBytes = 0
+		delete(tr.lastCutClass, who)
 	}
 	dead := tr.dead
 	tr.mu.Unlock()
@@ -357,7 +407,11 @@ func (tr *simTransport) RoundTrip(req *http.Request) (*http.Response, error) {
 	sreq := &http.Request{Method: req.Method, URL: req.URL, Proto: "HTTP/1.1", ProtoMajor: 1, ProtoMinor: 1,
 		Header: req.Header.Clone(), Host: req.URL.Host, RequestURI: req.URL.RequestURI(), ContentLength: -1, RemoteAddr: "sim"}
 	if req.Body != nil {
-		sreq.Body = &simBody{tr: tr, rc: req.Body, cut: cut, post: req.Method == "POST"}
+		bound := ""
+		if _, params, err := mime.ParseMediaType(req.Header.Get("Content-Type")); err == nil {
+			bound = params["boundary"]
+		}
+		sreq.Body = &simBody{tr: tr, rc: req.Body, cut: cut, post: req.Method == "POST", clean: clean, bound: bound, who: who}
 	} else {
 		sreq.Body = http.NoBody
 	}
